@@ -249,6 +249,11 @@ def check(tier):
     ck.add("dv-init", "harness.steps", "delay_volume_step", dict(cases=[(2, 2, 2, 0, 2, 0)], facets=["init"]))
     ck.add("ssa-init", "harness.C05", "step_job", dict(cases=[(2, 2, 2, 0)], facets=["init", "record"]))
     ck.add("volume-exit", "harness.steps", "volume_step", dict(cases=[(2, 2, 2, 1), (2, 2, 2, 0)], facets=["exit", "init"]))
+    # first row = initial condition with the assignment rules applied: the real interface's rule passes (plain and volume-aware, rules that
+    # mention t and volume included) applied to the initial state are what the loops' init/record obligations put in row 0
+    from . import C09
+    for idx in (0, 2):
+        ck.add("first-row-rules/%d" % idx, "harness.C09", "interface_job", dict(cases=[(idx, "plain", 1)]))
     ck.extra_cov = dict(exhaustive=True, option_combinations=len(cs))
     ck.bounds = dict(option_lattice="2x3x2x4x2x2 = 192 combinations, all enumerated, x %d model shapes" % (len(cs) // 192),
                      grid="uniform, starting at 0, %d points, symbolic step" % (3 if tier == "quick" else 4),
@@ -258,8 +263,8 @@ def check(tier):
         "from the time points handed in and arbitrary rows); the contracts' exit obligations are discharged in this check's "
         "loop-step jobs; odeint returns arbitrary rows with the success message",
         "pandas is modelled as an ordered dict of equal-length columns (length mismatch raises)",
-        "first row = initial condition with rules applied follows from the loop step relation at index 0 (C05/C09) and is not "
-        "re-derived here",
+        "first row = initial condition with rules applied: the loops' init/record obligations at index 0 plus the real interface's rule "
+        "passes (first-row-rules jobs, shared with C09)",
     ]
     mut = [
         ("dt-not-set", dict(module="bioscrape.simulator", old="        Interface.py_set_dt(dt)\n", new="        pass\n")),
